@@ -21,7 +21,8 @@ const (
 )
 
 var (
-	Patterns   = []string{"^a", "b$", "a|b", "^$", "[0-9]", "^.{2}$", "é", "^[ab]+$"}
+	// (literals anchored at both ends next to names that contain them; escapes: an escaped backslash followed by u / x / d)
+	Patterns   = []string{"^a", "b$", "a|b", "^$", "[0-9]", "^.{2}$", "é", "^[ab]+$", "^a$", "^ab$", "a", "^a b$", `^\\usr$`, `\\u12`, `\.`, `^\d+$`, `\\x4`}
 	MultipleOf = []string{"1", "2", "3", "5", "0.5", "0.25", "0.125", "1.5", "2.5"}
 	// small numbers used by numeric keywords (exact in float64); a few large boundary values
 	SchemaNumbers = []string{"0", "1", "-1", "2", "3", "5", "10", "0.5", "-0.5", "1.5", "2.5", "0.25", "1.0", "2.0", "1e0", "100", "127", "255", "256", "-128", "65535", "2147483647", "9007199254740992"}
